@@ -16,7 +16,7 @@ def judge_runs(rep, traces, wd, name='MachineTrace'):
     step = 4000
     for b in range(0, len(traces), step):
         part = traces[b:b + step]
-        slim = [{k: t[k] for k in ('pair', 'ints', 'frame', 'ia', 'inv', 'sem', 'tsem', 'r0', 'ov0', 'obs')} for t in part]
+        slim = [{k: t[k] for k in ('pair', 'ints', 'frame', 'ia', 'inv', 'sem', 'tsem', 'r0', 'ov0', 'obs', 'c08') if k in t} for t in part]
         path = os.path.join(wd, 'mtraces.json')
         with open(path, 'w') as f:
             json.dump(slim, f, separators=(',', ':'))
